@@ -852,7 +852,8 @@ class Producer(Destination):
                     clamped_expiration=str(int(float(message.expiration)))
                     if clamped_expiration.startswith("-"):
                         clamped_expiration = "0"
-                except ValueError as e:
+                except (ValueError, OverflowError, TypeError) as e:
+                    # Not a number, infinite, or not a string or number at all
                     clamped_expiration = "0"
 
             properties = pika.BasicProperties(
